@@ -259,6 +259,7 @@ class Interp:
         self.repo = repo_root
         self.roots = [repo_root] + list(extra_roots)
         self.modules = {}
+        self.in_hasattr = False
         self.tracing = None      # fxtrace.TraceCtx while a torch.fx Tracer model executes a forward on Proxy values
         self.touched = {}        # (relpath, qualname) -> sha1 of the function source: functions actually executed
         self.summaries = {}      # (dotted module, qualname) -> host callable(interp, clo, args, kwargs)
@@ -407,6 +408,10 @@ class Interp:
                 c2, ga = self.find_member(o.cls, '__getattr__')
                 if ga is not None and ga['kind'] == 'method':
                     return self.call(Bound(o, Closure(ga['fn'], c2.mod.env, c2, c2.mod)), [name], {})
+                if self._is_standin(o) and not self.in_hasattr:
+                    # a stand-in object defined by the contract (not a real class of the program) is asked for something it does not model:
+                    # a limitation of the contract, never a verdict about the code
+                    raise Unsupported(f"stand-in class {o.cls.name} of the contract does not model '{name}'")
                 raise RaiseEx(AttributeError(f"'{o.cls.name}' object has no attribute '{name}'"))
             return self.bind_member(o, c, mem, name)
         if isinstance(o, SuperProxy):
@@ -477,7 +482,13 @@ class Interp:
             raise Unsupported(f'decorator {k}')
         return Bound(o, Closure(mem['fn'], c.mod.env, c, c.mod))
 
+    def _is_standin(self, o):
+        return isinstance(o, Obj) and isinstance(o.cls, ClassInfo) and o.cls.mod is not None and o.cls.mod.dotted.startswith('contracts.') \
+            and '_modules' not in o.attrs and not self.is_exception_class(o.cls)
+
     def hasattr(self, o, name):
+        prev = self.in_hasattr
+        self.in_hasattr = True
         try:
             self.getattr(o, name)
             return True
@@ -485,6 +496,8 @@ class Interp:
             if e.exc_name() == 'AttributeError':
                 return False
             raise
+        finally:
+            self.in_hasattr = prev
 
     def setattr(self, o, name, v):
         if isinstance(o, Obj):
@@ -1597,6 +1610,8 @@ class Interp:
         if isinstance(v, Obj):
             c, mem = self.find_member(v.cls, '__len__')
             if mem is None:
+                if self._is_standin(v):
+                    raise Unsupported(f'stand-in class {v.cls.name} of the contract does not model len()')
                 raise RaiseEx(TypeError(f'object of type {v.cls.name} has no len()'))
             return self.call(self.bind_member(v, c, mem, '__len__'), [], {})
         from .modeb import SSeq
